@@ -40,6 +40,21 @@ def find_normaliser(prog, roots, helpers):
         if ("%s is True" % p in tests or "%s == True" % p in tests) and ("%s is False" % p in tests or "%s == False" % p in tests):
             cands.append(h)
     if len(cands) != 1:
+        # not spelt with `is True` / `is False` (e.g. `type(x) is bool`): the helper that *behaves* as the normaliser --
+        # true and false go to two distinct private objects, everything else comes back untouched
+        sem = []
+        for h in sorted(helpers, key=lambda x: x.qual):
+            req = len(h.params) - len(getattr(h.node.args, "defaults", []))
+            if req != 1:
+                continue
+            try:
+                res = normaliser_eval(prog, h)
+            except Exception:
+                res = None
+            if res is not None and res.get("bool-cases", "x") is None and res.get("converts-value", "x") is None and "raises" not in res:
+                sem.append(h)
+        if len(sem) == 1:
+            return None, sem[0]
         return None, None
     return None, cands[0]
 
@@ -283,6 +298,8 @@ def rule_one_relation(ctx, roots, helpers, equal, N, rid="R8.1"):
                 good = (cs == ["norm", "norm"]) if not is_in else (cs[0] == "norm" and cs[1] in ("normseq", "emptyseq"))
                 if good:
                     r.ok(where, "%s: both sides normalised" % norm(n))
+                elif not is_in and _type_guarded(C, n, ops, cs, parents):
+                    r.ok(where, "%s: under a type test that leaves only values on which the normaliser is the identity" % norm(n))
                 else:
                     r.fail(key + "|raw-comparison", where,
                            "`%s` relates data without the normaliser on both sides (%s): booleans and numbers are conflated, at top level or inside containers" % (norm(n), cs))
@@ -304,6 +321,52 @@ def rule_one_relation(ctx, roots, helpers, equal, N, rid="R8.1"):
             r.fail("%s|no-comparison" % f.qual, site(f), "keyword function for %s performs no recognisable equality operation" % sorted(roots[f]))
     # uniqueItems must go through the helper that uses the normaliser
     return r
+
+
+_EXACT_SCALARS = ("str", "int", "float", "type(None)", "NoneType")
+
+
+def _type_guarded(C, cmp, ops, cs, parents):
+    """`a == b` sits in the true branch of a test that pins the un-normalised operands to exact scalar types (`type(a) is str`,
+    also `isinstance(a, str)`: no string is a boolean or a container), the names not rebound in between.  The normaliser
+    hands such values back untouched (R8.2 checks that), so the raw comparison *is* the normalised one.  One operand known to
+    be a string is enough: a string equals nothing but a string, with or without the normaliser."""
+    facts = {}
+    cur, child = parents.get(id(cmp)), cmp
+    while cur is not None:
+        test = None
+        if isinstance(cur, ast.If) and any(child is s for s in cur.body):
+            test = cur.test
+        elif isinstance(cur, ast.IfExp) and child is cur.body:
+            test = cur.test
+        elif isinstance(cur, ast.BoolOp) and isinstance(cur.op, ast.And) and child in cur.values:
+            for v in cur.values[:cur.values.index(child)]:
+                _type_facts(v, facts, C, cmp)
+        if test is not None:
+            _type_facts(test, facts, C, cmp)
+        cur, child = parents.get(id(cur)), cur
+    names = [o.id if isinstance(o, ast.Name) else None for o in ops]
+    if any(nm is not None and facts.get(nm) == "str" for nm in names):
+        return True
+    return all(c == "norm" or (nm is not None and nm in facts) for nm, c in zip(names, cs))
+
+
+def _type_facts(test, facts, C, at):
+    conj = test.values if isinstance(test, ast.BoolOp) and isinstance(test.op, ast.And) else [test]
+    for t in conj:
+        nm = ty = None
+        if isinstance(t, ast.Compare) and len(t.ops) == 1 and isinstance(t.ops[0], (ast.Is, ast.Eq)) and \
+                isinstance(t.left, ast.Call) and norm(t.left.func) == "type" and len(t.left.args) == 1 and isinstance(t.left.args[0], ast.Name):
+            nm, ty = t.left.args[0].id, norm(t.comparators[0])
+        elif isinstance(t, ast.Call) and norm(t.func) == "isinstance" and len(t.args) == 2 and isinstance(t.args[0], ast.Name) and norm(t.args[1]) == "str":
+            nm, ty = t.args[0].id, "str"
+        if nm is None or ty not in _EXACT_SCALARS:
+            continue
+        # same binding at the test and at the comparison
+        n_test, n_cmp = C.node_of.get(id(t)), C.node_of.get(id(at))
+        if n_test is None or n_cmp is None or C.rd[n_test.id].get(nm) != C.rd[n_cmp.id].get(nm):
+            continue
+        facts[nm] = ty
 
 
 def normaliser_eval(prog, N):
